@@ -344,6 +344,25 @@ def work(job):
                     part.violation(key, what, case)
                 if k % 1999 == 1:
                     part.sample(case)
+    elif kind == 'tokens':
+        # strings built from whole identifiers and delimiters (mixed notations such as a.b::c need 5 tokens)
+        toks = ['a', 'Z9', '_x', '.', '::', ':', ' ']
+        idx, nslots, maxtok = job[1]
+        k = 0
+        for n in range(1, maxtok + 1):
+            for combo in itertools.product(toks, repeat=n):
+                k += 1
+                if k % nslots != idx:
+                    continue
+                case = {'kind': 'string', 's': ''.join(combo)}
+                res = judge(case)
+                part.evaluations += 1
+                part.transitions += 1
+                part.states += 1
+                part.nontrivial += 1
+                part.outcome('string:' + ('violation' if res else 'ok'))
+                for key, what in res:
+                    part.violation(key, what, case)
     elif kind == 'charprobes':
         # every ASCII character (and a few others) at the first, middle and last position of an identifier,
         # alone and as one element of a dotted / '::' name
@@ -421,6 +440,7 @@ def explore(ctx):
     jobs = [('decls', sets[i::32]) for i in range(32)]
     maxlen = 5 if ctx.thorough else 4
     jobs += [('strings', (i, 16, maxlen)) for i in range(16)]
+    jobs += [('tokens', (i, 8, 6 if pairs else 5)) for i in range(8)]
     jobs += [('idlists', None), ('charprobes', None)]
     for part in pmap(work, jobs):
         ctx.merge(part)
